@@ -65,43 +65,60 @@ func (m *Model) RemoveChildByName(name string, opts ...resource.WriteOption) (*t
 // If no child with the given name is already know, one will be created.
 // If a child is already known with the given name, its traits will be unioned with the given trait names.
 // Panics if name is empty, like AddChild: a child without a name cannot be listed (its name is the page token key).
+// Safe for concurrent use: a write that loses the race against another write of the same child is made again.
 func (m *Model) AddChildTrait(name string, traitName ...trait.Name) (child *traits.Child, created bool) {
 	if name == "" {
 		panic(fmt.Errorf("child has no name"))
 	}
-	msg, err := m.children.Update(name, &traits.Child{Name: name},
-		resource.WithCreateIfAbsent(),
-		resource.WithCreatedCallback(func() {
-			created = true
-		}),
-		resource.InterceptBefore(func(old, value proto.Message) {
-			oldChild := old.(*traits.Child)
-			newChild := value.(*traits.Child)
-			newChild.Traits = traitUnion(oldChild.Traits, traitName...)
-		}))
-	if err != nil {
-		panic(err) // shouldn't happen
+	for {
+		// a fresh message and a fresh created flag per attempt: the interceptor writes into the message
+		created = false
+		msg, err := m.children.Update(name, &traits.Child{Name: name},
+			resource.WithCreateIfAbsent(),
+			resource.WithCreatedCallback(func() {
+				created = true
+			}),
+			resource.InterceptBefore(func(old, value proto.Message) {
+				oldChild := old.(*traits.Child)
+				newChild := value.(*traits.Child)
+				newChild.Traits = traitUnion(oldChild.Traits, traitName...)
+			}))
+		if status.Code(err) == codes.Aborted {
+			// another writer changed this child between our read and our write: nothing was written,
+			// and there is nobody to report it to, so apply the union to what is stored now
+			continue
+		}
+		if err != nil {
+			panic(err) // shouldn't happen
+		}
+		return msg.(*traits.Child), created
 	}
-	return msg.(*traits.Child), created
 }
 
 // RemoveChildTrait ensures that the named child no longer mentions they support the given trait names.
 // If no child exists with the given name then nil will be returned.
+// Safe for concurrent use: a write that loses the race against another write of the same child is made again.
 func (m *Model) RemoveChildTrait(name string, traitName ...trait.Name) *traits.Child {
-	msg, err := m.children.Update(name, &traits.Child{Name: name},
-		resource.InterceptBefore(func(old, value proto.Message) {
-			oldChild := old.(*traits.Child)
-			newChild := value.(*traits.Child)
-			newChild.Traits = traitRemove(oldChild.Traits, traitName...)
-		}))
-	if err != nil {
-		switch status.Code(err) {
-		case codes.NotFound:
-			return nil
+	for {
+		msg, err := m.children.Update(name, &traits.Child{Name: name},
+			resource.InterceptBefore(func(old, value proto.Message) {
+				oldChild := old.(*traits.Child)
+				newChild := value.(*traits.Child)
+				newChild.Traits = traitRemove(oldChild.Traits, traitName...)
+			}))
+		if err != nil {
+			switch status.Code(err) {
+			case codes.NotFound:
+				return nil
+			case codes.Aborted:
+				// another writer changed this child between our read and our write: nothing was written,
+				// remove the traits from what is stored now
+				continue
+			}
+			panic(err) // NotFound is the only error we expect
 		}
-		panic(err) // NotFound is the only error we expect
+		return msg.(*traits.Child)
 	}
-	return msg.(*traits.Child)
 }
 
 // ListChildren returns a slice of all known Child instances.
